@@ -5,3 +5,4 @@
 ;@ghost idxdel (Array Int Int)
 ;@ghost idxupd (Array Int Bool)
 ;@ghost ixoid (Array Int Int)
+;@ghost nrel Int
